@@ -70,19 +70,24 @@ PROPS["C10"] = dict(
 )
 
 PROPS["C11"] = dict(
-    modules=["DdoModel.Props.C11"],
+    modules=["DdoModel.Props.C11", "DdoModel.Props.C11Inv"],
     theorems=["Ddo.C11.push_keeps_others", "Ddo.C11.coalesce_only_same_subproblem", "Ddo.C11.push_no_invention",
               "Ddo.C11.survivor_fields", "Ddo.C11.push_represents_new", "Ddo.C11.push_length",
               "Ddo.C11.pop_returns_root", "Ddo.C11.pop_is_max", "Ddo.C11.pop_max_ub_value", "Ddo.C11.pop_empty",
               "Ddo.C11.heapOrdB_sound", "Ddo.C11.keyOld_merges_distinct",
+              "Ddo.C11.inv_iff_checked", "Ddo.C11.inv_empty", "Ddo.C11.inv_clear", "Ddo.C11.inv_push", "Ddo.C11.inv_pop",
+              "Ddo.C11.push_no_crash", "Ddo.C11.pop_no_crash", "Ddo.C11.reachable_inv",
+              "Ddo.C11.bubbleUp_correct", "Ddo.C11.bubbleDown_correct", "Ddo.C11.bubbleUp_fuel_irrelevant", "Ddo.C11.bubbleDown_fuel_irrelevant",
+              "Ddo.C11.live_keys_distinct", "Ddo.C11.live_length", "Ddo.C11.push_refines_perm", "Ddo.C11.push_refines",
+              "Ddo.C11.pop_refines", "Ddo.C11.pop_none_iff", "Ddo.C11.pop_is_max_live",
+              "Ddo.C11.NoDupInvariantInductive_total", "Ddo.C11.NoDupRefinesKeyed_holds", "Ddo.C11.icmp_fringe",
               "Ddo.NoDup.root_max", "Ddo.subLe_trans", "Ddo.subLe_iff"],
-    stated_not_proved=["Ddo.C11.NoDupInvariantInductive (wfB / heapOrdB preserved by push and pop): checked by the driver on every state of every explored trace, not proved",
-                       "Ddo.C11.NoDupRefinesKeyed (concrete push = specification push on the live nodes): watched through phi on the implementation's outputs"],
-    level_text="Specification level (keyed priority queue with the property's coalescing rule): proved for every push that only an entry denoting the same (state, depth) is touched, the survivor's fields, no loss, no invention, length law. Concrete level (field-by-field model of NoDupFringe, tied by exact trace equality on all explored sequences): pop returns the heap root, shortens the heap by one, and - in any well-formed heap-ordered state - the popped node is MaxUB-maximal, so pops are in non-increasing ub order with ties by larger value. The invariants (wfB, heapOrdB) are evaluated on every state of every explored trace but not yet proved inductive; the refinement NoDup -> KeyedPQ is stated, not proved, and watched by phi (reference keyed multiset replay of the implementation's outputs).",
-    level_note="Partial: inductiveness of the heap invariants and the concrete-to-spec refinement are stated as Props (NoDupInvariantInductive, NoDupRefinesKeyed), checked at run time only. SimpleFringe = binary_heap_plus::BinaryHeap is modelled (pop returns a comparator-maximal element), not verified. Model follows the code after fix commit d8c734c (D2: key = (state, depth)); keyOld_merges_distinct is the witness against the old key. Comparator hypotheses: the state ranking is a preorder.",
+    stated_not_proved=[],
+    level_text="Full refinement proof for the duplicate-free fringe. Specification level (keyed priority queue with the property's coalescing rule): only an entry denoting the same (state, depth) is touched by a push, the survivor keeps the larger value with its own path and the larger ub, no loss, no invention, length law. Concrete level (field-by-field model of NoDupFringe incl. the indexed binary heap, position table and recycle bin, tied to the code by exact trace equality): the well-formedness + heap-order invariant holds initially and is preserved by every push (both branches), pop and clear; no operation crashes; the loops' fuel never cuts them short; every reachable state satisfies it (reachable_inv); the live nodes after a push are a permutation of the specification's push, after a pop a permutation of the old ones minus the popped one; pop answers None iff empty; the popped node is MaxUB-maximal among the live nodes (hence non-increasing ub, ties by larger value); len is the number of live nodes. The invariant is also evaluated by the driver on every state of every explored trace (inv_iff_checked relates the two).",
+    level_note="Hypothesis: the state ranking is transitive and consistent (RankOK: trans, rank x y = gt -> rank y x = lt); needed for heap order only (NoDupInvariantInductive_literal_false shows it is necessary). SimpleFringe = binary_heap_plus::BinaryHeap is modelled (pop returns a comparator-maximal element), not verified. Model follows the code after fix commit d8c734c (D2: key = (state, depth)); keyOld_merges_distinct is the witness against the old key. FringeInv.lean (1700 lines) was produced by a delegated proof session and is checked by the same lake build / axiom audit.",
     engines=[dict(name="fringe")],
     trusted_base=TB_COMMON + ["binary_heap_plus::BinaryHeap behind SimpleFringe (modelled as: pop returns a comparator-maximal element)", "FxHashMap lookup/insert/remove = finite map"],
-    assumptions=["state ranking is a total preorder (MaxUB over it is then one too)"],
+    assumptions=["state ranking satisfies RankOK (icmp does: icmp_ok)"],
     rule="all sequences of length <= 4 (quick) / 5 (thorough) over 18 operations (pushes with state, depth, value, ub in {0,1}^4 + pop + clear), each followed by len and a full drain, for NoDupFringe/total ranking (and SimpleFringe and a coarse ranking on two lengths); random sequences of length 5..2000 with small alphabets (1..12 states, 1..3 depths) and recycling-heavy push/pop mixes for both fringes and both rankings; non-trivial = a duplicate push, the same state at another depth, or a push after a pop (slot recycling) occurred; distinct = distinct sequence + fringe + ranking",
     trivial_tags=["exhaustive", "random"],
 )
@@ -121,4 +126,66 @@ PROPS["C12"] = dict(
     assumptions=["the harness families compute the relaxed cost from dst and merged (relax = cost + slack * |merged \\ dst|), so swapped arguments change results"],
     rule=MDD_RULE + "; pooled diagrams additionally with long arcs (random irrelevance patterns)",
     trivial_tags=MDD_TRIVIAL,
+)
+
+SEQ_RULE = ("random TableDP / Knapsack instances (as for the diagram engine; rough bound none in half of them) x {LEL, frontier, pooled} x {EmptyCache, SimpleCache} x {SimpleFringe, NoDupFringe} x width heuristics "
+            "FixedWidth(1..3), NbUnassignedWidth, Times, DivBy x {no primal, primal = value of a random feasible solution} x {no cutoff, cutoff at poll 1..12}; the real SequentialSolver runs with recording wrappers "
+            "around the real diagram, cache and fringe and the tape of all calls is replayed through the Lean solver model; seqcut: for each instance / configuration the outcome at every cutoff index k = 1..K+1; "
+            "non-trivial = more than one sub-problem explored, a cache refusal, a cutoff, a primal or no value; distinct = distinct instance + configuration")
+SEQ_TRIVIAL = ["lel", "frontier", "pooled", "cache", "nocache", "nodup", "simple", "dominance", "knapsack", "random"]
+SEQ_TB = MDD_TB + ["the diagram is a parameter of the solver model: theorems assume the contracts CompileOk / CutsetOk (= C06-C08), the tape supplies the real diagram's answers",
+                   "SimpleFringe / NoDupFringe: the specification multiset with an arbitrary maximal pop (C11)"]
+SEQ_ENGINES = [dict(name="seq", label="seq_clean", args=[]), dict(name="seq", label="seq_pooled", args=["--pooled"])]
+
+PROPS["C01"] = dict(
+    modules=["DdoModel.Props.C01"],
+    theorems=["Ddo.C01.process_inv", "Ddo.C01.init_inv", "Ddo.C01.complete_optimal", "Ddo.C01.infeasible_no_update",
+              "Ddo.enqueue_false_spec", "Ddo.updateBest_ok"],
+    stated_not_proved=["Ddo.C01.SeqTerminates (termination by the Dershowitz-Manna order on fringe depths)", "Ddo.C01.ProcessInvDedup (process_inv for the duplicate-free fringe)",
+                       "Ddo.C01.CachePruneOk / Ddo.C10.DomPruneOk (runs with a threshold cache or cross-diagram dominance)",
+                       "closed theorem with the diagram models plugged in (needs C06-C08 as theorems on Mdd.lean: relaxed_ub, restricted_sound in progress)"],
+    level_text="The coverage invariant of the sequential branch-and-bound (if the optimum beats the incumbent, some open sub-problem still has the optimum as its potential and a bound above it; every open sub-problem is exact; the incumbent is the value of the stored feasible solution) is proved to hold initially, to be preserved by process_one_node under exactly the diagram contracts of C06-C08, and to imply - when the fringe is found empty - that the incumbent is the optimum (none iff infeasible). For every model, width, ranking and every diagram meeting the contracts. The solver model is tied to the code by tape validation: every call the real solver makes to its diagram, cache and fringe (arguments included) must be the model's next call, on every explored run; phi compares the final value with the exact optimum.",
+    level_note="Partial: proved for the plain multiset fringe, without cache and without cutoff; termination, the duplicate-free fringe and the cache / dominance configurations are stated, not proved, and watched by tape validation + phi. The diagram contracts are hypotheses here (they are the subject of C06-C08).",
+    engines=SEQ_ENGINES, trusted_base=SEQ_TB,
+    assumptions=["diagram contracts CompileOk / CutsetOk (C06-C08)", "potential Phi independent of the ub field"],
+    rule=SEQ_RULE, trivial_tags=SEQ_TRIVIAL,
+)
+PROPS["C02"] = dict(
+    modules=["DdoModel.Props.C02"],
+    theorems=["Ddo.C02.best_is_solution", "Ddo.C02.value_iff_solution", "Ddo.C02.completion_value_eq_lb", "Ddo.C02.ub_eq_value_uninterrupted",
+              "Ddo.C05.cutoff_bounds_restricted", "Ddo.C05.cutoff_bounds_relaxed"],
+    stated_not_proved=["parallel part (value and solution written in one critical section): see C03", "feasibility of the diagram's own best exact solution (CompileOk.sound) on Mdd.lean: proof in progress (C07)"],
+    level_text="Sequential solver: at every point of every run, also after a cutoff at any poll, the stored solution is a feasible solution whose value is the lower bound (invariant over maybe_update_best under the diagram contract), a value is present iff a solution is, equals the lower bound and the Completion value, and after an uninterrupted run the upper bound equals it. phi replays every reported solution through the model's transition and cost functions (default-completed replay for pooled diagrams) on every explored run, sequential and parallel.",
+    level_note="Partial: the parallel part and the diagram-level feasibility are not yet theorems; both are evaluated by phi (solution replay) on every explored run.",
+    engines=SEQ_ENGINES + [dict(name="seqcut")], trusted_base=SEQ_TB,
+    assumptions=["diagram contract CompileOk.sound (C06 / C07)"],
+    rule=SEQ_RULE, trivial_tags=SEQ_TRIVIAL + ["many_polls"],
+)
+PROPS["C05"] = dict(
+    modules=["DdoModel.Props.C05"],
+    theorems=["Ddo.C05.bounds_at_pop", "Ddo.C05.update_le_ub", "Ddo.C05.cutoff_bounds_restricted", "Ddo.C05.cutoff_bounds_relaxed", "Ddo.C05.aborted_not_exact"],
+    stated_not_proved=["parallel part (par_cutoff_bounds): see C03 / C04 - not yet modelled"],
+    level_text="Sequential part: for every instance and every poll index at which the cutoff fires (during the restricted or during the relaxed compilation of the node in hand) the aborted state satisfies best_lb <= optimum <= best_ub, its solution is feasible with value best_lb, and exactness is not claimed; proved from the coverage invariant, the max-pop order of the fringe and the parent-capped bounds. Tied to the code by tape validation of interrupted runs and by the seqcut engine (every k = 1..K+1).",
+    level_note="Partial: the parallel solver's abort path is not covered yet (planned with the parallel model, where the design-time probes found a defect, D4).",
+    engines=SEQ_ENGINES + [dict(name="seqcut")], trusted_base=SEQ_TB,
+    assumptions=["diagram contracts (C06-C08)", "fringe pops a maximal element (C11)"],
+    rule=SEQ_RULE, trivial_tags=SEQ_TRIVIAL + ["many_polls"],
+)
+PROPS["C14"] = dict(
+    modules=["DdoModel.Props.C02"],
+    theorems=["Ddo.C02.set_primal_strict", "Ddo.C02.from_primal_optimal", "Ddo.C01.process_inv", "Ddo.C01.complete_optimal"],
+    stated_not_proved=["parallel version"],
+    level_text="set_primal replaces the incumbent exactly when the new value is strictly greater (proved); a run started from any primal that belongs to a feasible solution satisfies the coverage invariant initially, hence (process_inv, complete_optimal) ends exact with max(primal, optimum). Tape validation covers runs with a primal taken from a random feasible solution (often equal to the optimum).",
+    level_note="Partial: sequential model only; same hypotheses as C01.",
+    engines=SEQ_ENGINES, trusted_base=SEQ_TB,
+    assumptions=["as C01"], rule=SEQ_RULE, trivial_tags=SEQ_TRIVIAL,
+)
+PROPS["C19"] = dict(
+    modules=["DdoModel.Props.C05"],
+    theorems=["Ddo.C05.process_lb_mono", "Ddo.C05.process_below", "Ddo.C05.next_pop_le", "Ddo.C05.complete_ub_le", "Ddo.C05.cutoff_bounds_relaxed"],
+    stated_not_proved=["cut_run_is_prefix (the run cut at poll k is the uninterrupted run frozen at poll k) and eventually_exact as theorems over whole runs; process_below for the duplicate-free fringe"],
+    level_text="The two monotonicity mechanisms are proved on the solver model for every input: the incumbent never decreases through process_one_node (any fringe, any answers), and everything in the fringe after processing a node is below that node's bound (pushed nodes are capped by the parent's bound), so the bound of the next popped node - the next best_ub - never exceeds the current one, and the final best_ub := best_lb does not increase it either. The seqcut engine compares the reported bounds for all consecutive cutoff indices k = 1..K+1 of every explored instance.",
+    level_note="Partial: the statement over whole runs as a function of k is evaluated (phi on all consecutive k) rather than proved; duplicate-free fringe not covered by process_below.",
+    engines=[dict(name="seqcut")], trusted_base=SEQ_TB,
+    assumptions=["fringe pops a maximal element (C11)"], rule=SEQ_RULE, trivial_tags=SEQ_TRIVIAL + ["many_polls"],
 )
